@@ -151,8 +151,8 @@ def self_test(ctx: Ctx):
 def run(ctx: Ctx):
     quick = ctx.tier == "quick"
     ctx.rule = ("(kind in Potential / PotentialArray / CrystalPotential, ensemble members 1..3, slices (unit x repetitions), window "
-                "[first, last)) enumerated by TLC from PotentialBuildImpl; realised with and without frozen phonons, infinite (and "
-                "in thorough finite) projection; non-trivial = window is a strict sub-range or more than one member")
+                "[first, last)) enumerated by TLC from PotentialBuildImpl; realised with and without frozen phonons, infinite and "
+                "(every 5th case, thorough every 3rd) finite projection; non-trivial = window is a strict sub-range or more than one member")
     r = ctx.design_check("PotentialBuildImpl", cfg_text=CFG.format(m=3 if not quick else 2, n=4 if quick else 6), label="PotentialBuildImpl=>PotentialBuild",
                          workers=1, timeout=3000)
     self_test(ctx)
@@ -161,7 +161,7 @@ def run(ctx: Ctx):
     rng = random.Random(ctx.seed)
     evs = []
     for j, c in enumerate(cases):
-        proj = "infinite" if quick or j % 5 else "finite"
+        proj = "finite" if (j + ctx.seed) % (5 if quick else 3) == 0 else "infinite"
         evs.append(window_event(c, proj))
         ctx.case(("window", json.dumps(c), proj), nontrivial=c["first"] > 0 or c["last"] < c["n"])
         if c["kind"] != "array" and c["first"] == 0 and c["last"] == c["n"]:      # C10 speaks of building the potential (all slices)
